@@ -11,10 +11,13 @@
 (* Randomized = FALSE : every choice is a full \E  (exhaustive enumeration, small constants only)               *)
 EXTENDS RegAllocInterp
 
+(* 64-bit registers q1..qW (W of WSet) share the GP file and are written with mixed widths; the skeleton "hdrloop"  *)
+(* adds registers P+4..P+7 that are defined first and updated/read only in the header of a loop with a two-block body *)
+(* (their liveness in the body exists only through the back edge; with P >= 66 the live sets span several words).      *)
 CONSTANTS PSet,          \* set of pressures to draw from
           QSet,          \* set of vector-register pressures (0 = no vector registers)
           WSet,          \* set of 64-bit general register counts (0 = none); they add to the GP pressure
-          Skeletons,     \* subset of {"straight","diamond","loop2","irreducible","jtab","jtabloop","callloop"}
+          Skeletons,     \* subset of {"straight","diamond","nested","loop2","irreducible","jtab","jtabloop","hdrloop","tiny"}
           Hazards,       \* subset of {"plain","fixed","calls","mem"}: which instruction mix the blocks use
           BlockLen,      \* instructions per random block
           Randomized
